@@ -212,8 +212,12 @@ impl<'a> World<'a> {
 					return (Tri::Yes, "bridge-side-unknown-to-jar");
 				}
 				if !self.main.contains_key(sp) {
-					// the ancestors of a class outside the jar are unknown: undocumented
-					return (Tri::Either, "specialised-side-unknown-to-jar");
+					// The relation speaks about what the jar states: a class outside the jar has no ancestor the jar
+					// knows of, so none of the documented arms holds (the bridge side is a class of the jar, it is not
+					// java/lang/Object, it is no stated ancestor of the other side, and no stated ancestor of the other
+					// side lies outside the jar). It could not hold in fact either: a class from outside the main jar
+					// cannot have a class of the main jar as its ancestor. Not compatible.
+					return (Tri::No, "specialised-side-outside-jar");
 				}
 				let anc = self.jar_ancestors(sp);
 				if anc.contains(b) {
@@ -253,21 +257,27 @@ impl<'a> World<'a> {
 		};
 		let own = entry(owner);
 		let mut inherited = Vec::new();
+		let mut relayed = Vec::new();
 		let mut seen = BTreeSet::new();
+		let known = |class: &str| set.classes.contains_key(class);
 		// depth-first in declaration order, so that `inherited[0]` is the first one in declaration order
-		fn walk(class: &str, supers: &dyn Fn(&str) -> Vec<String>, entry: &dyn Fn(&str) -> Option<Option<String>>, seen: &mut BTreeSet<String>, out: &mut Vec<(String, usize)>, depth: usize) {
+		#[allow(clippy::too_many_arguments)]
+		fn walk(class: &str, supers: &dyn Fn(&str) -> Vec<String>, entry: &dyn Fn(&str) -> Option<Option<String>>, known: &dyn Fn(&str) -> bool, seen: &mut BTreeSet<String>, out: &mut Vec<(String, usize)>, relayed: &mut Vec<bool>, depth: usize, through_unknown: bool) {
 			for p in supers(class) {
 				if !seen.insert(p.clone()) {
 					continue;
 				}
 				match entry(&p) {
-					Some(Some(n)) => out.push((n, depth + 1)),
-					_ => walk(&p, supers, entry, seen, out, depth + 1),
+					Some(Some(n)) => {
+						out.push((n, depth + 1));
+						relayed.push(through_unknown);
+					},
+					_ => walk(&p, supers, entry, known, seen, out, relayed, depth + 1, through_unknown || !known(&p)),
 				}
 			}
 		}
-		walk(owner, supers, &entry, &mut seen, &mut inherited, 0);
-		Lookup { own, inherited }
+		walk(owner, supers, &entry, &known, &mut seen, &mut inherited, &mut relayed, 0, false);
+		Lookup { own, inherited, relayed }
 	}
 
 	fn official_supers(&self, c: &str) -> Vec<String> {
@@ -289,6 +299,16 @@ impl<'a> World<'a> {
 					_ => None,
 				}
 			},
+		}
+	}
+
+	/// for the vacuity floors: (the intermediary name of `r` is inherited from a super type, the path to that
+	/// super type leads through a class without entry in the calamus mappings)
+	pub fn int_name_inherited(&self, r: &MRef) -> (bool, bool) {
+		let l = Self::lookup(&self.input.calamus, &|c| self.official_supers(c), &r.0, &r.1, &r.2);
+		match l.own {
+			Some(Some(_)) => (false, false),
+			_ => (!l.inherited.is_empty(), l.relayed.first().copied().unwrap_or(false)),
 		}
 	}
 
@@ -425,6 +445,9 @@ pub struct Lookup {
 	pub own: Option<Option<String>>,
 	/// (name, depth) from the nearest naming super type of every path, declaration order
 	pub inherited: Vec<(String, usize)>,
+	/// per element of `inherited`: the path to it leads through a class that has no class entry in the mapping
+	/// set (such a class relays to its own super types); for the vacuity floors only
+	pub relayed: Vec<bool>,
 }
 
 #[derive(Clone, Debug)]
@@ -522,6 +545,7 @@ pub fn expect(world: &World) -> Expectation {
 		let mut names: Vec<Option<String>> = Vec::new(); // None = nothing happens
 		let fallback = int_bridge.1.clone();
 		let mut how = String::new();
+		let mut relay_named = false;
 		match &look.own {
 			Some(Some(n)) => {
 				names.push(Some(n.clone()));
@@ -539,6 +563,7 @@ pub fn expect(world: &World) -> Expectation {
 				}
 				if distinct.len() == 1 && own.is_none() {
 					how = format!("inherited-depth-{}", look.inherited.iter().filter(|e| e.0 == distinct[0].0).map(|e| e.1).min().unwrap_or(0));
+					relay_named = look.inherited.len() == 1 && look.relayed[0];
 				} else if distinct.len() > 1 {
 					how = "inherited-ambiguous".into();
 				}
@@ -605,6 +630,23 @@ pub fn expect(world: &World) -> Expectation {
 					}
 					if int_bridge != c.bridge || &int_delegate != delegate {
 						tags.insert("rename:through-real-calamus-renames".into());
+					}
+					if relay_named {
+						tags.insert("rename:name-relayed-by-a-class-without-entry-in-the-mappings".into());
+					}
+					let (bi, br) = world.int_name_inherited(&c.bridge);
+					if bi && int_bridge.1 != c.bridge.1 {
+						tags.insert("rename:bridge-intermediary-name-inherited".into());
+						if br {
+							tags.insert("rename:bridge-intermediary-name-relayed-by-a-class-without-calamus-entry".into());
+						}
+					}
+					let (di, dr) = world.int_name_inherited(delegate);
+					if di && int_delegate.1 != delegate.1 {
+						tags.insert("rename:delegate-intermediary-name-inherited".into());
+						if dr {
+							tags.insert("rename:delegate-intermediary-name-relayed-by-a-class-without-calamus-entry".into());
+						}
 					}
 				} else {
 					tags.insert(format!("silent:{how}"));
